@@ -7,3 +7,7 @@ import RainModel.Model.WriteQueue
 import RainModel.Model.PieceDownloader
 import RainModel.Model.PieceWriter
 import RainModel.Model.WriteDone
+import RainModel.Model.STree
+import RainModel.Model.Blocklist
+import RainModel.Model.AddrList
+import RainModel.Model.Admission
